@@ -61,6 +61,39 @@ mod rollback_h {
         kani::cover!(r.is_none() && n == max);
     }
 
+    /// K-bounded(len <= max, alphabet 3 so that duplicates occur): roll_back against the list model — keep everything up
+    /// to the FIRST occurrence of the point (Handled), or empty the buffer (OutOfScope).
+    #[kani::proof]
+    #[kani::unwind(5)]
+    fn rollback_roll_back_bounded3() { roll_back_body(3) }
+    #[kani::proof]
+    #[kani::unwind(6)]
+    fn rollback_roll_back_bounded4() { roll_back_body(4) }
+    fn roll_back_body(max: usize) {
+        use pallas_network::miniprotocols::chainsync::RollbackEffect;
+        let n: usize = kani::any();
+        kani::assume(n <= max);
+        let mut model = [0u8; 4];
+        let mut b = build(n, &mut model);
+        let qk: u8 = kani::any();
+        kani::assume(qk < 3);
+        let q = mk(qk);
+        let mut first = n;
+        let mut j = n;
+        while j > 0 { j -= 1; if model[j] == qk { first = j; } }
+        let eff = b.roll_back(&q);
+        if first < n {
+            assert!(matches!(eff, RollbackEffect::Handled));
+            assert!(b.size() == first + 1, "roll_back must keep exactly the prefix up to the first occurrence");
+            assert!(code(b.latest().unwrap()) == qk);
+        } else {
+            assert!(matches!(eff, RollbackEffect::OutOfScope));
+            assert!(b.size() == 0);
+        }
+        kani::cover!(first + 1 < n);
+        kani::cover!(first == n && n == max);
+    }
+
     /// K-bounded(len <= max): the contract assumed for `pop_with_depth` holds on the real body.
     #[kani::proof]
     #[kani::unwind(6)]
